@@ -142,6 +142,8 @@ def _ob(tag, text, **kw):
         kw.setdefault("vmax", 24)  # the value can become a length, a count or a realised bit pattern
     if any(("\n" + m) in text for m in ("br ", "sob ", "trap ", "spl ", "mark ", "emt ")) and any(m in text for m in (" % ", " / ", " * ")):
         kw["vmax"] = min(kw.get("vmax", 300), 24)  # an opcode field computed from a quotient/remainder is realised bit by bit through string theory
+    if any(m in text for m in ('"ab" / {', '"ab" % {')):
+        kw["vmax"] = min(kw.get("vmax", 300), 24)  # a symbolic divisor is enumerated value by value; 25185 // v differs for each of them
     if len(vars_) == 2 and any(m in text for m in (" & ", " ^ ", " | ", " ! ")):
         kw["vmax"] = 3  # both operands of a bitwise operator are realised
     if len(vars_) == 2 and any(m in text for m in (".align", ".blkb", ".blkw", ".repeat", ". =")):
